@@ -494,7 +494,8 @@ SPEC = {
     ],
     "assumptions": [
         "handler bodies other than config.set and pair.* are not modelled: 'handled' stands for whatever the handler "
-        "answers; that a handler terminates is NOT claimed (see finding C18-debug-evaluate-self-deadlock)",
+        "answers; that a handler terminates is NOT claimed (the debug.evaluate self-deadlock found by this check, "
+        "fixed in 92b3089, stays in the replayed corpus)",
         "str::trim / to_ascii_lowercase are modelled on ASCII white space and letters (all the generator uses)",
         "session caches (DAP variable handles, HMI trend/alarm cache, the debugger's stop-event queue) are not "
         "counted as runtime state: viewer-level reads refresh or drain them",
@@ -517,7 +518,7 @@ MANIFEST = {
                   "more than viewer for all parameters (decide over the regenerated tables + c18_mutating_above_viewer); "
                   "config.set needs engineer, admin for credential/auth-mode keys; the debug list equals the names of the "
                   "debugger's handler modules and those requests are refused while debugging is off; unknown types and "
-                  "malformed lines have no effect; allows is >= on a total order.  Each run executes model and real server on "
+                  "malformed lines have no effect and every malformed line gets the invalid-request reply (c18_malformed_error_reply); allows is >= on a total order.  Each run executes model and real server on "
                   "the same ~3.7k cases / ~8k lines (exhaustive names x credentials x token x debug, plus scenarios) and compares "
                   "reply class, reply id and the exact set of changed probes.",
     "level_note": "Trusted: Lean kernel (+ propext/Quot.sound/Classical.choice where listed); the regex translator (fails closed; "
@@ -525,9 +526,10 @@ MANIFEST = {
                   "by the differential run, whose palette bounds what it sees: a handler with an effect outside the 12 probes, or "
                   "only under parameters the palette lacks, would be labelled read-only unnoticed); the harness's serde mirror of "
                   "ControlRequest.  Not proved: anything inside handler bodies except config.set's and pair.*'s effect on the "
-                  "gates; termination of handlers (debug.evaluate self-deadlocks: finding recorded); TCP transport and audit log; "
-                  "Unicode white space in trim.  Known deviation recorded with counterexample + _partial theorem: a non-UTF-8 "
-                  "line drops the connection without an error reply.",
+                  "gates; termination of handlers; the audit log; Unicode white space in trim; JSON parsing itself (the model starts "
+                  "from 'the lossily decoded line parsed as a request / did not parse', decided by serde_json in the harness).  "
+                  "Two defects found by this check are fixed in /repo (92b3089 debug.evaluate self-deadlock, 2c1da06 non-UTF-8 "
+                  "line dropped the connection); their witnesses are replayed on every run and a regression is a violation.",
 }
 
 
@@ -548,7 +550,7 @@ def _fields(op):
     return out
 
 
-REFUSALS = ("unauthorized", "forbidden", "debug-disabled", "unsupported", "invalid", "closed")
+REFUSALS = ("unauthorized", "forbidden", "debug-disabled", "unsupported", "invalid")
 
 
 def _class_of(ans):
@@ -637,7 +639,7 @@ def extra(ctx):
         w = line.split()
         if w and w[0] == "class":
             classes[_unhex(w[1])] = {kv.split("=")[0]: kv.split("=")[1] for kv in w[2:]}
-    seen_handled, seen_effect, by_class, nonutf8 = set(), set(), {}, 0
+    seen_handled, seen_effect, by_class, lossy = set(), set(), {}, 0
     per_type = {}
     for c in cases:
         for op, impl in c.ops:
@@ -645,8 +647,8 @@ def extra(ctx):
                 continue
             cls, fx = _class_of(impl)
             by_class[cls] = by_class.get(cls, 0) + 1
-            if op.startswith("line notutf8") and cls == "closed":
-                nonutf8 += 1
+            if " lossy=1 " in op:
+                lossy += 1
             if op.startswith("claimcheck") and impl.strip() == "fail":
                 # the pending code the case started with is gone: pair.start / pair.claim / expiry took effect
                 for op2, impl2 in c.ops:
@@ -683,27 +685,39 @@ def extra(ctx):
         "names_seen_dispatched": len(seen_handled),
         "mutating_names_seen_with_effect": len(seen_effect),
         "reply_classes": by_class,
+        "lines_with_invalid_utf8": lossy,
         "per_type": per_type,
         "lines_per_second": round(r.get("ops", 0) / max(0.001, stats.get("wall-ms", 1) / 1000.0), 1),
     })
-    # (3) recorded findings: replayed by the harness against the real server on every run
-    known = {f["id"]: f for f in vlib.known_findings("C18")}
+    # (3) corpus: the witnesses of the recorded findings are replayed by the harness against the real server on
+    #     every run.  For an open finding the defective answer prints KNOWN-FINDING; for a fixed one (and for
+    #     anything not listed) the answers of the fixed code are required, so a regression is a failing input.
+    known = {f["id"]: f for f in vlib.known_findings("C18")}   # open ones only
     observed = {k[len("finding:"):]: v for k, v in stats.items() if k.startswith("finding:")}
-    res["coverage"]["finding_replays"] = observed
-
-    def reproduced(fid, key, what):
-        if observed.get(key):
+    res["coverage"]["corpus_replays"] = observed
+    CORPUS = {
+        "C18-nonutf8-line-no-reply": {
+            "what": "a request line that is not valid UTF-8 must be answered (lossily decoded) and the connection must go on",
+            "expect": ["nonutf8-line:id=1_handled", "nonutf8-line-bare:id=0_invalid", "nonutf8-line-then-health:id=5_handled"],
+        },
+        "C18-debug-evaluate-self-deadlock": {
+            "what": "debug.evaluate with a parsable expression must answer and release the metadata mutex",
+            "expect": ["debug-evaluate:id=2_handled", "debug-evaluate-then-schema:id=3_handled",
+                       "debug-evaluate-metadata-lock-free:true"],
+        },
+    }
+    if observed:
+        for fid, spec in CORPUS.items():
+            missing = [k for k in spec["expect"] if not observed.get(k)]
+            if not missing:
+                continue
             if fid in known:
                 res["known"].append(f"{fid}: {known[fid]['what']}")
             else:
-                res["oracle_failures"].append({"what": what, "finding": fid, "observed": observed})
-        elif fid in known and observed:
-            res["coverage"].setdefault("findings_no_longer_reproducing", []).append(fid)
-
-    reproduced("C18-nonutf8-line-no-reply", "nonutf8-line:closed",
-               "a request line that is not valid UTF-8 closes the connection without an error reply")
-    reproduced("C18-debug-evaluate-self-deadlock", "debug-evaluate:hang",
-               "debug.evaluate with a parsable expression never answers and leaves the metadata mutex locked")
+                res["oracle_failures"].append({
+                    "what": f"corpus witness of {fid} regressed: {spec['what']}; expected {missing}, observed {observed}",
+                    "finding": fid, "observed": observed,
+                })
     return res
 
 
